@@ -14,6 +14,8 @@ agree = Base.agree; nontrivial = Base.nontrivial; signature = Base.signature; ex
 
 def classify(op, m):
     o = op.split(' ')[0]
+    if o.startswith('c18.') or o.startswith('race-'):
+        return o + ':' + m.split(' ')[0]
     if o.startswith('sxg.'):
         return o + ':' + op.split(' ')[1] + ':' + m.split(' ')[0]
     if o.startswith('mice.enc'):
@@ -118,3 +120,11 @@ def run(ctx):
     if len(items) < len(sops):
         ctx.infra.append(f'{len(sops) - len(items)} exchanges could not be signed')
     sxglib.verify_stage(ctx, items)
+    # many Encode calls at once on unrelated goroutines (multi-record payloads: different separator octets are in flight at the same
+    # time): every output equals the sequential one, and the race detector stays silent
+    cops = [f'c18.conc 8 40 {rng.randrange(10**6)} mice {d} {rs} {hexs(rbytes(rng, n))}' for d in ('02', '03') for rs, n in ((16, 100), (7, 50), (4096, 9000))]
+    res, race = ctx.go_race(cops)
+    for op, r in zip(cops, res):
+        ctx.records.append((op, (r or 'crash').split(' ')[0], 'same'))
+    if race:
+        ctx.records.append(('race-detector report on concurrent MI encoding: ' + race[:400].replace('\n', ' | '), 'DATA RACE', 'no race'))
